@@ -353,6 +353,32 @@ def check_krim(ctx, rs, model, kw, X, Z, base):
 
 
 # ------------------------------------------------------------------ malformed trees: the model rejects what the code rejects
+class bounded:
+    """time and address-space limit around one call of the code under test (a runaway must not take the harness down)"""
+
+    def __init__(self, seconds, gigabytes):
+        self.seconds, self.bytes = seconds, int(gigabytes * (1 << 30))
+
+    def __enter__(self):
+        import resource, signal
+        self.old_limit = resource.getrlimit(resource.RLIMIT_AS)
+        soft = self.bytes if self.old_limit[1] in (-1, resource.RLIM_INFINITY) else min(self.bytes, self.old_limit[1])
+        resource.setrlimit(resource.RLIMIT_AS, (soft, self.old_limit[1]))
+
+        def on_alarm(signum, frame):
+            raise TimeoutError(f"more than {self.seconds} s")
+        self.old_handler = signal.signal(signal.SIGALRM, on_alarm)
+        signal.alarm(self.seconds)
+        return self
+
+    def __exit__(self, *exc):
+        import resource, signal
+        signal.alarm(0)
+        signal.signal(signal.SIGALRM, self.old_handler)
+        resource.setrlimit(resource.RLIMIT_AS, self.old_limit)
+        return False
+
+
 def malformed_trees(ctx, rs, asker, reps):
     from gemclus.tree.kauri import Tree
 
@@ -381,12 +407,18 @@ def malformed_trees(ctx, rs, asker, reps):
         }
         for name, t in trees.items():
             try:
-                with warnings.catch_warnings():
+                with warnings.catch_warnings(), bounded(seconds=10, gigabytes=4):
                     warnings.simplefilter("ignore")
                     real = [int(v) for v in t.predict(A)]
             except (ValueError, IndexError, TypeError, RecursionError) as e:
                 real = None
                 ctx.count(f"malformed:{name}:{type(e).__name__}")
+            except (MemoryError, TimeoutError) as e:
+                # a malformed tree (cycle, child beyond the arrays) must be REJECTED; running away on it is not a rejection
+                real = None
+                ctx.violation(f"Tree.predict on a malformed tree ({name}) does not terminate within 10 s / 4 GB: {type(e).__name__}", "tree",
+                              {"tree": name, "X": A.tolist()}, expected="an error", actual=type(e).__name__, key=f"malformed-runaway:{name}",
+                              how="gemclus.tree.kauri.Tree with the listed arrays; .predict(X)")
             ctx.case(("malformed", name, A.tobytes(), thr), name.startswith("ok"), None)
 
             def h(ans, real=real, name=name, A=A):
